@@ -10,6 +10,7 @@ import Driver.Vgm
 import Driver.Conv
 import Driver.Wave
 import Driver.MdsData
+import Driver.Tags
 open Driver
 
 def allHandlers : List Handler :=
@@ -20,6 +21,7 @@ def allHandlers : List Handler :=
   ++ ConvD.handlers
   ++ WaveD.handlers
   ++ MdsDataD.handlers
+  ++ TagsD.handlers
 
 def answerModel (cmd arg : String) : String :=
   match allHandlers.find? (·.cmd == cmd) with
